@@ -121,9 +121,12 @@ package system
 //@   opt capture PREV
 //@   requires PREV [C11]: prev == ghost.acPrev && d != nil && d.state != nil
 //@   assigns ghost.acHeld, ghost.autoconf, ghost.restores
-//@   at call SetIPv6Autoconf(iface, v) (serr): assert A1 [C11]: iface == d.iface && v == ghost.acPrev ; ghost.restores = ghost.restores + 1 ; ghost.acHeld = false
-//@   ensures T1 [C11]: (result == nil) == (err == nil || errIs(err, global("os.ErrPermission")) || errIs(err, global("os.ErrNotExist")))
-//@   ensures T2 [C11]: err == nil ==> autoconfOf(ghost.autoconf, d.iface) == ghost.acPrev
+//@   ghost local serr Iface
+//@   at call SetIPv6Autoconf(iface, v): assert A1 [C11]: iface == d.iface && v == ghost.acPrev
+//@   at call SetIPv6Autoconf(iface, v) (rerr): ghost.restores = ghost.restores + 1 ; ghost.acHeld = false ; ghost.serr = rerr
+//@   ensures T1 [C11]: (result == nil) == (ghost.serr == nil || errIs(ghost.serr, global("os.ErrPermission")) || errIs(ghost.serr, global("os.ErrNotExist")))
+//@   ensures T2 [C11]: ghost.serr == nil ==> autoconfOf(ghost.autoconf, d.iface) == ghost.acPrev
+//@   ensures T3 [C11]: ghost.restores == old(ghost.restores) + 1
 //@   opt safety [C11]
 
 //@ func (*Dialer).dial$1
